@@ -7,7 +7,7 @@ seen, out = set(), []
 for f in sorted(glob.glob(os.path.join(root, "_CoqProject.d", "*.list"))):
     for line in open(f):
         line = line.strip()
-        if line and not line.startswith("#") and line not in seen:
+        if line and not line.startswith("#") and line not in seen and (os.path.exists(os.path.join(root, line)) or line.startswith("gen/")):
             seen.add(line)
             out.append(line)
 txt = hdr + "\n".join(out) + "\n"
